@@ -69,7 +69,10 @@ class Gen:
     # ---------------------------------------------------------------- literals
     def lit(self, T):
         r = self.r
-        if T == MI: return ('lit', MI, r.choice([0, 1, 2, 3, 5, 7, 10, -1, -2, -7, 13, 100, 255, 256, 1000, 65535, 2**31 - 1, 2**31, -2**31, 2**40 + 3, r.randint(-50, 50), r.randint(-10**6, 10**6)]))
+        if T == MI:
+            v = r.choice([0, 1, 2, 3, 5, 7, 10, -1, -2, -7, 13, 100, 255, 256, 1000, 65535, 2**31 - 1, 2**31, -2**31, 2**40 + 3, r.randint(-50, 50), r.randint(-10**6, 10**6)])
+            if abs(v) >= getattr(self, 'mi_lit_max', 1 << 62): v = v % 1000003
+            return ('lit', MI, v)
         if T == INT: return ('lit', INT, r.choice([0, 1, -1, 2, 10, 2**31, 2**32 + 1, 2**63, 2**64 - 1, -(2**64), 10**20, 10**30 + 7, -(10**25), r.randint(-10**40, 10**40), r.randint(-100, 100)]))
         if T == BOOL: return ('lit', BOOL, r.choice([True, False]))
         if T == STR:
@@ -499,8 +502,9 @@ class Render:
         if k == 'out': return '%s%s(%s);' % (p, PRINTER[st[1]], self.e(st[2], True))
         if k == 'ifs':
             self.nb += 1; bv = 'zqb%d' % self.nb
-            a = '%s%s: Boolean := %s;\n%sif %s then {\n%s\n%s}' % (p, bv, self.e(st[1], False), p, bv, self.ss(st[2], ind + 1, ret), p)
-            if st[3]: a += ' else {\n%s\n%s}' % (self.ss(st[3], ind + 1, ret), p)
+            tail = ('\n' + '\t' * (ind + 1) + 'zqnop();') if (self.marker and ind == 0) else ''     # session steps are typed as values: give both branches the value ()
+            a = '%s%s: Boolean := %s;\n%sif %s then {\n%s%s\n%s}' % (p, bv, self.e(st[1], False), p, bv, self.ss(st[2], ind + 1, ret), tail, p)
+            if st[3] or tail: a += ' else {\n%s%s\n%s}' % (self.ss(st[3], ind + 1, ret), tail, p)
             return a + ';'
         if k == 'block': return '\n'.join(self.s(x, ind, ret) for x in st[1])
         if k == 'while': return '%swhile %s repeat {\n%s\n%s};' % (p, self.e(st[1], False), self.ss(st[2], ind + 1, ret), p)
